@@ -517,12 +517,12 @@ func (c *Ctx) evalSliceInit(rel string, g *ssa.Global) *sliceTable {
 	t := &sliceTable{}
 	inits := c.initFuncsOf(rel)
 	type st struct {
-		in   *ssa.Store
-		idx  int64 // -1 for fill
-		val  constant.Value
-		blk  *ssa.BasicBlock
-		ord  int
-		fn   *ssa.Function
+		in  *ssa.Store
+		idx int64 // -1 for fill
+		val constant.Value
+		blk *ssa.BasicBlock
+		ord int
+		fn  *ssa.Function
 	}
 	var stores []st
 	var mk *ssa.MakeSlice
